@@ -203,7 +203,10 @@ C11_INST = {
               # and two keys (one through the keyed API, one through the hashed-key API) on long histories
               tl_inst(64, 36, 0.01, 1, 1, 1),
               tl_inst(64, 1000, 0.01, 1, 2, 1, random_only=True, random=(12, 250)),
-              tl_inst(64, 60, 0.01, 2, 2, 1, random_only=True, random=(12, 250))],
+              tl_inst(64, 60, 0.01, 2, 2, 1, random_only=True, random=(12, 250)),
+              # wide sketches (rows of 16 bytes ... 128 KiB): word-at-a-time ageing, row-size limits
+              tl_inst(300000, 50, 0.01, 2, 6, 1, random_only=True, random=(10, 300)),
+              tl_inst(4096, 30, 0.01, 3, 6, 1, random_only=True, random=(10, 300))],
     'thorough': [tl_inst(8, 4, 0.01, 2, 3, 2, random=(200, 200), extra_ops=EXTRA_TL),
                  tl_inst(3, 5, 0.999, 2, 4, 2, random=(200, 200)),
                  tl_inst(2, 1, 0.5, 1, 2, 1, random=(50, 50)), tl_inst(2, 2, 0.000000001, 2, 3, 2, random=(100, 100)),
@@ -215,7 +218,10 @@ C11_INST = {
                  tl_inst(64, 36, 0.01, 1, 1, 1), tl_inst(64, 40, 0.01, 0, 1, 1),
                  tl_inst(64, 1000, 0.01, 1, 2, 1, random_only=True, random=(100, 400)),
                  tl_inst(64, 60, 0.01, 2, 2, 1, random_only=True, random=(100, 400)),
-                 tl_inst(256, 500, 0.01, 2, 3, 1, random_only=True, random=(50, 1500))],
+                 tl_inst(256, 500, 0.01, 2, 3, 1, random_only=True, random=(50, 1500)),
+                 tl_inst(300000, 50, 0.01, 2, 6, 1, random_only=True, random=(100, 400)),
+                 tl_inst(4096, 30, 0.01, 3, 6, 1, random_only=True, random=(100, 400)),
+                 tl_inst(2000000, 200, 0.001, 2, 6, 1, random_only=True, random=(50, 1000))],
 }
 
 
@@ -226,7 +232,8 @@ def c11(tier, seed, replay):
 # --------------------------------------------------------------------------- C20
 def sl_inst(max0, samples, keys, costs, maxes, **kw):
     return dict(name='slfu-m%d-s%d-k%d' % (max0, samples, keys), mc=dict(Keys=K(keys), CostsN={c + 10 for c in costs}, Off=10, Maxes=set(maxes), Max0=max0),
-                cfg={'max': max0, 'samples': samples}, keys=keys, table=[0, 0, U64MAX, 7, 1 << 40, 99, 100, 101, 102][:keys + 1], **kw)
+                cfg={'max': max0, 'samples': samples}, keys=keys,
+                table=([0, 0, U64MAX, 7, 1 << 40, 99, 100, 101, 102] + [1000 + 7 * i for i in range(64)])[:keys + 1], **kw)
 
 
 EXTRA_SL = [{'op': 'fill_sample', 'inp': []}, {'op': 'fill_sample', 'inp': [[3, 9]]}, {'op': 'fill_sample', 'inp': [[1, 1], [2, 2]]},
@@ -234,11 +241,19 @@ EXTRA_SL = [{'op': 'fill_sample', 'inp': []}, {'op': 'fill_sample', 'inp': [[3, 
 C20_INST = {
     'quick': [sl_inst(10, 5, 3, [-2, 0, 3], [0, 10], random=(30, 80), extra_ops=EXTRA_SL),
               sl_inst(100, 1, 3, [5], [100], random=(20, 60), extra_ops=EXTRA_SL),
-              sl_inst(7, 2, 5, [-2, 0, 3, 5], [0, 7, 100], random_only=True, random=(30, 150), extra_ops=EXTRA_SL)],
+              sl_inst(7, 2, 5, [-2, 0, 3, 5], [0, 7, 100], random_only=True, random=(30, 150), extra_ops=EXTRA_SL),
+              # larger tables: more tracked keys than the sample size several times over (default sample size 5, and 4, 8)
+              sl_inst(1000, 5, 16, [-2, 0, 3, 5], [0, 1000], random_only=True, random=(20, 200), extra_ops=EXTRA_SL),
+              sl_inst(500, 4, 12, [1, 2, 3], [500], random_only=True, random=(20, 200), extra_ops=EXTRA_SL),
+              sl_inst(5000, 8, 40, [1, 7], [5000, 100], random_only=True, random=(10, 400), extra_ops=EXTRA_SL)],
     'thorough': [sl_inst(10, 5, 3, [-2, 0, 3], [0, 10], random=(300, 200), extra_ops=EXTRA_SL),
                  sl_inst(10, 2, 4, [-2, 3], [0, 10], random=(300, 200), extra_ops=EXTRA_SL),
                  sl_inst(100, 1, 3, [5], [100], random=(100, 100), extra_ops=EXTRA_SL),
-                 sl_inst(7, 3, 8, [-2, 0, 3, 5], [0, 7, 100], random_only=True, random=(300, 400), extra_ops=EXTRA_SL)],
+                 sl_inst(7, 3, 8, [-2, 0, 3, 5], [0, 7, 100], random_only=True, random=(300, 400), extra_ops=EXTRA_SL),
+                 sl_inst(1000, 5, 16, [-2, 0, 3, 5], [0, 1000], random_only=True, random=(200, 400), extra_ops=EXTRA_SL),
+                 sl_inst(500, 4, 12, [1, 2, 3], [500], random_only=True, random=(200, 400), extra_ops=EXTRA_SL),
+                 sl_inst(5000, 8, 40, [1, 7], [5000, 100], random_only=True, random=(100, 800), extra_ops=EXTRA_SL),
+                 sl_inst(100000, 16, 60, [1, 7], [100000], random_only=True, random=(50, 1500), extra_ops=EXTRA_SL)],
 }
 
 
@@ -398,13 +413,26 @@ def c14(tier, seed, replay):
         jobs = []
         for kind, inst, tc, ms, allw in plan:
             jobs.append(dict(kind=kind, inst=dict(inst, tc=tc), max_states=ms, all_words=allw, tag='iter-' + inst['name']))
+        # long lists (10..40 entries): states reached by seeded random histories; words with skips into both halves
+        bign = 3 if tier == 'quick' else 12
+        for kind, inst, tc in [('raw', I.raw(24, [0, 30], 30, [1]), dict(Kind='raw', P1=24, P2=0, P3=0)),
+                               ('raw', I.raw(40, [0, 64], 44, [1]), dict(Kind='raw', P1=40, P2=0, P3=0)),
+                               ('2q', I.twoq(16, 4, 8, 28, [1]), dict(Kind='2q', P1=16, P2=4, P3=8)),
+                               ('arc', I.arc(12, 30, [1]), dict(Kind='arc', P1=12, P2=0, P3=0))]:
+            jobs.append(dict(kind=kind, inst=dict(inst, tc=tc), max_states=None, all_words=False, tag='iter-big-' + inst['name'],
+                             random=(bign, 150 if kind != 'raw' else 90)))
 
         def gen(job):
             kd = KINDS[job['kind']]
-            drv, st = vlib.tlc_model_check(kd['mc'], job['inst']['mc'], work.dir, job['tag'] + '-mc', emit=True)
+            if job.get('random'):
+                drv, st = vlib.tlc_ops_only(kd['mc'], job['inst']['mc'], work.dir, job['tag'] + '-ops'), None
+            else:
+                drv, st = vlib.tlc_model_check(kd['mc'], job['inst']['mc'], work.dir, job['tag'] + '-mc', emit=True)
             job['tlc'], job['driver'] = st, drv
             prefix = work.path(job['tag'] + '.trace')
-            c = [binary, 'iters', '--kind', job['kind'], '--cfg', json.dumps(job['inst']['cfg']), '--in', drv, '--out', prefix, '--shard', '6000']
+            c = [binary, 'iters', '--kind', job['kind'], '--cfg', json.dumps(job['inst']['cfg']), '--in', drv, '--out', prefix, '--shard', '3000']
+            if job.get('random'):
+                c += ['--max-states', '0', '--random', '%d,%d,%d' % (job['random'][0], job['random'][1], seed + 3)]
             if job['max_states']:
                 c += ['--max-states', str(job['max_states'])]
             if job['all_words']:
